@@ -84,6 +84,9 @@ struct Value {
                     fprintf(stderr, "parse error, unclosed [bracket (expected: ']') in \"%s\"\n", args_string);
                     exit(1);
                 }
+                // i is now one past the closing bracket: look at that character (it may start a comment)
+                // instead of taking it for a separator unseen
+                ch = args_string[i - (i == args_len)];
             }
             if (i == args_len || (ch == ']' || ch == ' ' || ch == '\t' || ch == '\n' || ch == '\r' || ch == '#')) {
                 if (start == i) {
